@@ -675,12 +675,12 @@ def run(eng, rep):
     rep.not_decided += ["'to rounding of the base-point arithmetic'", "'resid is the mean of the returned residual vectors' (running-mean formula, see C17)",
                         "regularised sub-problem solved over the true box: decided under C06-4"]
     A = anchors(eng)
-    rule_roles(eng, rep, A)
-    rule_record_coherence(eng, rep, A)
-    rule_extra_samples_same_slot(eng, rep)
-    rule_tuple_coherence(eng, rep, A)
-    rule_objective_construction(eng, rep, A)
-    rule_exits_select(eng, rep, rule="C03-7.all-exits-go-through-final-selection")
+    rep.guarded(rule_roles, eng, rep, A)
+    rep.guarded(rule_record_coherence, eng, rep, A)
+    rep.guarded(rule_extra_samples_same_slot, eng, rep)
+    rep.guarded(rule_tuple_coherence, eng, rep, A)
+    rep.guarded(rule_objective_construction, eng, rep, A)
+    rep.guarded(rule_exits_select, eng, rep, rule="C03-7.all-exits-go-through-final-selection")
     vfg = eng.vfg
     ci, b = final_ctor(eng, A)
     sinks = [("f", "Model", f) for f in ("xsave", "rsave", "jacsave", "jacsave_eval_nums")]
@@ -688,7 +688,7 @@ def run(eng, rep):
         e = b.params.get(pn)
         if e is not None and not isinstance(e, tuple):
             sinks.append(vfg.key_of(e))
-    rule_snapshots_are_copies(eng, rep, "C03-8.saved-and-returned-records-are-copies", sinks, "the saved-point slot / soln.x / soln.resid")
-    rule_mean_over_samples_run(eng, rep, "C03-9.means-are-taken-over-the-samples-actually-run")
+    rep.guarded(rule_snapshots_are_copies, eng, rep, "C03-8.saved-and-returned-records-are-copies", sinks, "the saved-point slot / soln.x / soln.resid")
+    rep.guarded(rule_mean_over_samples_run, eng, rep, "C03-9.means-are-taken-over-the-samples-actually-run")
     from .records import rule_eval_results_are_fresh
-    rule_eval_results_are_fresh(eng, rep, "C03-10.evaluation-results-are-fresh-arrays")
+    rep.guarded(rule_eval_results_are_fresh, eng, rep, "C03-10.evaluation-results-are-fresh-arrays")
